@@ -36,6 +36,18 @@ def sampled_patterns(rng, kernel, nmin, nmax, count):
     return out
 
 
+def late_bound_patterns(rng, count):
+    """the class late_bound_then_arc of Kernels.tla at n = 3..5 (its outcome depends on the digits: concretised many times)"""
+    out = []
+    for _ in range(count):
+        n = int(rng.integers(3, 6))
+        pos = [str(rng.choice(["in", "free"])) for _ in range(n)]
+        pos[int(rng.integers(0, n))] = "in"
+        out.append(dict(kernel="trsbox", n=n, pos=pos, sgn=[str(rng.choice(["neg", "pos"])) for _ in range(n)], hk="psd_lowrank", sets=[], coin="late_bound_then_arc",
+                        act="inside", rel="generic"))
+    return out
+
+
 def run_kernel_check(prop, tier, kernels_wanted, solver_insts, reps, sample_counts):
     import multiprocessing as mp
     V = vlib.Verdict(prop, tier)
@@ -59,6 +71,8 @@ def run_kernel_check(prop, tier, kernels_wanted, solver_insts, reps, sample_coun
         sel += ks
         if k in ("trsbox", "trsbox_geometry"):
             sel += sampled_patterns(rng, k, maxn + 1, 8, sample_counts.get(k + "_hi", 300))
+        if k == "trsbox":
+            sel += late_bound_patterns(rng, sample_counts.get("trsbox_late", 0))
     nchunks = 48
     chunks = [(i + 1, sel[i::nchunks], vlib.seed(), reps) for i in range(nchunks) if sel[i::nchunks]]
     ctx = mp.get_context("fork")
@@ -102,4 +116,4 @@ def run(tier):
         corpus.with_bounds(rng, inst)
         inst["maxfun"] = max(inst["maxfun"], 30)
         insts.append(inst)
-    return run_kernel_check("C12", tier, ["trsbox"], insts, reps=2 if tier == "quick" else 8, sample_counts={"trsbox_hi": 400 if tier == "quick" else 6000})
+    return run_kernel_check("C12", tier, ["trsbox"], insts, reps=2 if tier == "quick" else 8, sample_counts={"trsbox_hi": 400 if tier == "quick" else 6000, "trsbox_late": 20000 if tier == "quick" else 60000})
